@@ -61,7 +61,7 @@ for spans, net0, eq0 in configs:
             off_br = rnd.choice([0, 0, 1.0])
             for j in range(rnd.randint(1, 3)):
                 # most libraries give one power offset per baud rate; every third set gives each mode its own
-                off = rnd.choice([0, 1.0, -2.0, 3.0]) if k % 3 == 2 else off_br
+                off = rnd.choice([0, 1.0, -2.0, 2.0]) if k % 3 == 2 else off_br
                 pen = [{'chromatic_dispersion': 4e3, 'penalty_value': 0}, {'chromatic_dispersion': 60e3, 'penalty_value': rnd.choice([0.5, 3.0])}] \
                     if rnd.random() < 0.3 else None
                 modes.append(mode(f'm{len(modes)}', b, rnd.choice([100e9, 200e9, 300e9, 400e9]) + j * 1e9, rnd.choice([8, 14, 19, 23, 27, 35]),
